@@ -8,11 +8,13 @@ import (
 	"os"
 	"path/filepath"
 	"reflect"
+	"sort"
 	"strings"
 
 	"github.com/consensys/gnark-crypto/ecc"
 	"github.com/consensys/gnark-crypto/ecc/bn254/fr"
 	"github.com/consensys/gnark/frontend"
+	gl "github.com/wormhole-foundation/example-near-light-client/goldilocks"
 	"github.com/wormhole-foundation/example-near-light-client/types"
 	"github.com/wormhole-foundation/example-near-light-client/variables"
 	"github.com/wormhole-foundation/example-near-light-client/verifier"
@@ -328,6 +330,139 @@ func c19Corruptions() []corruption {
 	}
 }
 
+// c19CompareProof compares every leaf of a read proof with the generator's record.
+func c19CompareProof(pwi *variables.ProofWithPublicInputs, g *docGen) (key, detail string) {
+	got := map[string]*big.Int{}
+	for _, l := range circ.Leaves(pwi) {
+		v := l.Get()
+		if bi, ok := v.(*big.Int); ok && bi == nil {
+			return "value_replaced_by_nil", l.Path
+		}
+		got[l.Path] = l.Big()
+	}
+	if len(got) != len(g.expected) {
+		return "leaf_count_differs", fmt.Sprintf("%d leaves read, %d values written", len(got), len(g.expected))
+	}
+	for p, want := range g.expected {
+		gv, ok := got[p]
+		if !ok {
+			return "position_missing:" + circ.KindOf(p), p
+		}
+		if new(big.Int).Mod(gv, bigR).Cmp(new(big.Int).Mod(want, bigR)) != 0 || (strings.HasSuffix(p, ".Limb") && gv.Cmp(want) != 0) {
+			return "value_differs:" + circ.KindOf(p), fmt.Sprintf("%s: read %s, document has %s", p, gv, want)
+		}
+	}
+	return "", ""
+}
+
+// c19ReqSeq reads several documents one after the other through the request-body readers
+// (the web API's path) in one process: every result must match its own document when read
+// and still match it after the later reads; a document lacking a key must give the same
+// result as through the file reader (nothing may be carried over from an earlier document).
+func c19ReqSeq(r *rand.Rand, dir, fname string) fw.Outcome {
+	var o fw.Outcome
+	type rd struct {
+		p variables.ProofWithPublicInputs
+		g *docGen
+	}
+	readReq := func(raw []byte) (p variables.ProofWithPublicInputs, ok bool) {
+		ok = true
+		defer func() {
+			if rr := recover(); rr != nil {
+				ok = false
+			}
+		}()
+		p, _ = variables.DeserializeProofWithPublicInputs(types.ReadProofWithPublicInputsFromRequest(raw))
+		return
+	}
+	n := 2 + r.Intn(3)
+	var reads []rd
+	for i := 0; i < n; i++ {
+		doc, g, _ := genProofDoc(r)
+		raw, _ := json.Marshal(doc)
+		p, ok := readReq(raw)
+		if !ok {
+			return fw.Violate("wellformed_document_refused", fmt.Sprintf("request read #%d of a sequence", i))
+		}
+		if k, d := c19CompareProof(&p, g); k != "" {
+			return fw.Violate("request_sequence:"+k, fmt.Sprintf("document #%d of %d read through the request reader: %s", i, n, d))
+		}
+		reads = append(reads, rd{p, g})
+		o.Events += len(g.expected)
+		for j := range reads[:i] {
+			if k, d := c19CompareProof(&reads[j].p, reads[j].g); k != "" {
+				return fw.Violate("earlier_result_changed_by_later_read:"+k, fmt.Sprintf("result of request read #%d after read #%d: %s", j, i, d))
+			}
+		}
+	}
+	// verifier data: full document, then documents lacking a key; request vs file reader
+	g := &docGen{r: r, expected: map[string]*big.Int{}}
+	full := map[string]any{"constants_sigmas_cap": g.cap("ConstantSigmasCap", 1+r.Intn(17)), "circuit_digest": g.hash().String()}
+	variants := []map[string]any{full,
+		{"constants_sigmas_cap": g.cap("x", 1+r.Intn(17))},
+		{"circuit_digest": g.hash().String()},
+		{},
+		full}
+	type vres struct {
+		ok   bool
+		vals []*big.Int
+		werr bool
+	}
+	vdRes := func(read func() variables.VerifierOnlyCircuitData) (res vres) {
+		res.ok = true
+		var vd variables.VerifierOnlyCircuitData
+		func() {
+			defer func() {
+				if rr := recover(); rr != nil {
+					res.ok = false
+				}
+			}()
+			vd = read()
+		}()
+		if !res.ok {
+			return
+		}
+		a := &verifier.VerifierCircuit{VerifierData: vd, PublicInputs: []gl.Variable{}}
+		vals, err := witnessGuard(a)
+		res.vals, res.werr = vals, err != nil
+		return
+	}
+	for i, v := range variants {
+		raw, _ := json.Marshal(v)
+		path, _ := writeDoc(dir, fmt.Sprintf("v%d_%s", i, fname), v)
+		fr := vdRes(func() variables.VerifierOnlyCircuitData {
+			return variables.DeserializeVerifierOnlyCircuitData(types.ReadVerifierOnlyCircuitData(path))
+		})
+		rr := vdRes(func() variables.VerifierOnlyCircuitData {
+			return variables.DeserializeVerifierOnlyCircuitData(types.ReadVerifierOnlyCircuitDataFromRequest(raw))
+		})
+		os.Remove(path)
+		o.Events += 2
+		same := fr.ok == rr.ok && fr.werr == rr.werr && len(fr.vals) == len(rr.vals)
+		if same {
+			for k := range fr.vals {
+				if fr.vals[k].Cmp(rr.vals[k]) != 0 {
+					same = false
+				}
+			}
+		}
+		if !same {
+			return fw.Violate("request_reader_differs_from_file_reader:verifier_data", fmt.Sprintf("verifier data variant #%d (keys %v) after earlier request reads: file reader (read ok=%v, witness refused=%v, %d values) vs request reader (read ok=%v, witness refused=%v, %d values)", i, keysOf(v), fr.ok, fr.werr, len(fr.vals), rr.ok, rr.werr, len(rr.vals)))
+		}
+	}
+	o.Inc("request_sequences")
+	return o
+}
+
+func keysOf(m map[string]any) []string {
+	var ks []string
+	for k := range m {
+		ks = append(ks, k)
+	}
+	sort.Strings(ks)
+	return ks
+}
+
 func init() {
 	register("C19", func() *fw.Prop {
 		return &fw.Prop{
@@ -353,6 +488,13 @@ func init() {
 				}
 				for i := 0; i < np; i++ {
 					cs = append(cs, fw.Case{ID: fmt.Sprintf("pair/%d", i), Kind: "pair", P: map[string]any{"i": i}})
+				}
+				nq := 60
+				if !ctx.Quick {
+					nq = 2000
+				}
+				for i := 0; i < nq; i++ {
+					cs = append(cs, fw.Case{ID: fmt.Sprintf("reqseq/%d", i), Kind: "reqseq", P: map[string]any{"i": i}})
 				}
 				reps := 2
 				if !ctx.Quick {
@@ -494,6 +636,8 @@ func init() {
 					o.Inc("documents_roundtripped")
 				case "common":
 					return c19Common(r, dir, fname)
+				case "reqseq":
+					return c19ReqSeq(r, dir, fname)
 				case "pair":
 					// two documents read one after the other in the same process that differ in ONE
 					// value (same circuit digest, same everything else): the second assignment must
